@@ -99,22 +99,17 @@ class Recorder(object):
         shrink_sig = self._target_sig
         budget_s = self.shard.get("_budget") if shrink_sig is not None else None
         pub = {k: v for k, v in self.shard.items() if not k.startswith("_")}
-        sd = derive_seed(self.seed, self.prop,
-                         "%s/%s" % (json.dumps(pub, sort_keys=True), label))
         phases = [Phase.generate] if shrink_sig is None else [Phase.generate, Phase.shrink]
-        st = settings(max_examples=n, database=None, deadline=None,
-                      derandomize=False, report_multiple_bugs=False,
-                      suppress_health_check=list(HealthCheck), phases=phases)
         rec = self
         t_end = None if budget_s is None else time.time() + budget_s
 
         class _Hit(Exception):
             pass
 
-        @hseed(sd)
-        @st
-        @given(strategy)
-        def test(case):
+        def body(case):
+            rec._ncases = getattr(rec, "_ncases", 0) + 1
+            if rec._ncases % 128 == 0:
+                hygiene()
             fails = fn(case)
             if shrink_sig is not None and fails:
                 if t_end is not None and time.time() > t_end:
@@ -122,14 +117,27 @@ class Recorder(object):
                 if any(s == shrink_sig for s, _ in fails):
                     raise _Hit()
 
-        try:
-            test()
-        except _Hit:
-            pass
-        except hypothesis.errors.Flaky:
-            pass
-        except hypothesis.errors.FlakyFailure:
-            pass
+        # One Hypothesis run keeps its whole choice tree and result cache alive; runs of
+        # thousands of examples get slower and slower.  n examples are therefore drawn in
+        # sub-runs of at most SUBRUN, each with its own derived seed (sub-run 0 has the seed
+        # a single run would have).
+        sizes = [SUBRUN] * (n // SUBRUN) + ([n % SUBRUN] if n % SUBRUN else [])
+        for j, nj in enumerate(sizes):
+            sd = derive_seed(self.seed, self.prop,
+                             "%s/%s%s" % (json.dumps(pub, sort_keys=True), label,
+                                          "" if j == 0 else "/sub%d" % j))
+            st = settings(max_examples=nj, database=None, deadline=None,
+                          derandomize=False, report_multiple_bugs=False,
+                          suppress_health_check=list(HealthCheck), phases=phases)
+            test = hseed(sd)(st(given(strategy)(body)))
+            try:
+                test()
+            except _Hit:
+                break
+            except hypothesis.errors.Flaky:
+                pass
+            except hypothesis.errors.FlakyFailure:
+                pass
 
     def result(self):
         return {
@@ -169,6 +177,44 @@ def _run_one(args):
         return {"shard": shard, "error": traceback.format_exc()}
 
 
+def hygiene():
+    """between cases: spyne keeps every Application (util.appreg) and, through its memoize
+    tables, every generated class alive; a process that has built thousands of them gets
+    several times slower per case"""
+    try:
+        import gc
+        from spyne.util import appreg, memo
+        from spyne.util.cdict import cdict
+        appreg.applications.clear()
+        for m in list(getattr(memo.memoize, "registry", [])):
+            try:
+                m.reset()
+            except Exception:
+                pass
+        # module-level class dicts cache an entry for every class ever looked up
+        if not _cdict_snap:
+            def walk(d):
+                _cdict_snap.append((d, set(d.keys())))
+                for v in list(d.values()):
+                    if isinstance(v, cdict):
+                        walk(v)
+            for name, mod in list(sys.modules.items()):
+                if name.startswith("spyne") and mod is not None:
+                    for v in list(vars(mod).values()):
+                        if isinstance(v, cdict) and not any(v is d for d, _ in _cdict_snap):
+                            walk(v)
+        else:
+            for d, keys in _cdict_snap:
+                for k in [k for k in d.keys() if k not in keys]:
+                    dict.__delitem__(d, k)
+        gc.collect()
+    except Exception:
+        pass
+
+
+_cdict_snap = []
+
+
 CORPUS = os.path.join(env.VERIF, "corpus")
 
 
@@ -199,6 +245,7 @@ def _run_corpus(mod, shard, rec):
 
 
 CHUNK = int(os.environ.get("VERIF_CHUNK", "1500"))
+SUBRUN = 400
 
 
 def _split(shards):
